@@ -40,20 +40,40 @@ def readset():
     # conditional that picks sgc[1] / sgc[0]
     fi = extract.func(M + "._getsatcellmaps")
     reads = [n for n in ast.walk(fi.node) if isinstance(n, ast.Attribute) and n.attr == "_labelmsm"]
-    shape = False
-    var = None
-    for st in fi.node.body:
-        if isinstance(st, ast.Assign) and isinstance(st.value, ast.IfExp) and any(r in list(ast.walk(st.value.test)) for r in reads):
-            if len(st.targets) == 1 and isinstance(st.targets[0], ast.Name) and all(isinstance(x, ast.Constant) for x in (st.value.body, st.value.orelse)):
-                var = st.targets[0].id
-                shape = True
-    uses = [n for n in ast.walk(fi.node) if isinstance(n, ast.Name) and n.id == var and isinstance(n.ctx, ast.Load)] if var else []
-    ok_uses = []
-    for n in ast.walk(fi.node):
-        if isinstance(n, ast.IfExp) and isinstance(n.test, ast.Name) and n.test.id == var:
-            ok_uses.append(n.test)
-    out.append(("readset.label_option_only_selects_the_signal_label_slot", shape and len(reads) == 1 and len(uses) == len(ok_uses) == 1,
-                {"reads": len(reads), "uses_of_flag": len(uses)}))
+    # the single read sits in the TEST of a conditional (expression or statement).  Either that conditional picks the label slot
+    # itself, or it only sets a flag  X = <const> / <const>  and every later use of X is again the test of a conditional.  (What
+    # the selected branches do is the business of _getsatcellmaps' contract, verified with the option symbolic; this lemma only
+    # keeps the option out of arithmetic, subscripts, calls and stores.)  Spelling - `a if t else b` or if/else - does not matter.
+    conds = [n for n in ast.walk(fi.node) if isinstance(n, (ast.IfExp, ast.If))]
+
+    def in_test(node):
+        return [c for c in conds if any(x is node for x in ast.walk(c.test))]
+
+    def flag_of(c):
+        """name assigned a constant on both arms of conditional c, or None"""
+        if isinstance(c, ast.IfExp):
+            par = [st for st in ast.walk(fi.node) if isinstance(st, ast.Assign) and st.value is c]
+            if par and len(par[0].targets) == 1 and isinstance(par[0].targets[0], ast.Name) and all(isinstance(x, ast.Constant) for x in (c.body, c.orelse)):
+                return par[0].targets[0].id
+            return None
+        arms = [c.body, c.orelse]
+        names = set()
+        for arm in arms:
+            if len(arm) != 1 or not isinstance(arm[0], ast.Assign) or len(arm[0].targets) != 1 or not isinstance(arm[0].targets[0], ast.Name) \
+                    or not isinstance(arm[0].value, ast.Constant):
+                return None
+            names.add(arm[0].targets[0].id)
+        return names.pop() if len(names) == 1 else None
+
+    ok = len(reads) == 1 and len(in_test(reads[0])) >= 1
+    uses = 0
+    if ok:
+        var = flag_of(in_test(reads[0])[-1])
+        if var is not None:
+            loads = [n for n in ast.walk(fi.node) if isinstance(n, ast.Name) and n.id == var and isinstance(n.ctx, ast.Load)]
+            uses = len(loads)
+            ok = uses >= 1 and all(in_test(n) for n in loads)
+    out.append(("readset.label_option_only_selects_the_signal_label_slot", ok, {"reads": len(reads), "uses_of_flag": uses}))
     return out
 
 
